@@ -33,6 +33,8 @@ type process struct {
 	pid      *PID
 	restarts int32
 	mbuffer  []Envelope
+	// terminated is set by cleanup: the process is stopped for good.
+	terminated bool
 }
 
 func newProcess(e *Engine, opts Opts) *process {
@@ -133,6 +135,11 @@ func (p *process) Start() {
 		p.Invoke(p.mbuffer)
 		p.mbuffer = nil
 	}
+	// The buffered messages may have stopped the process (a poison pill, or a
+	// panic exceeding max restarts): do not reopen the inbox of a dead process.
+	if p.terminated {
+		return
+	}
 
 	p.inbox.Start(p)
 }
@@ -203,6 +210,7 @@ func (p *process) cleanup(cancel context.CancelFunc) {
 		}
 	}
 
+	p.terminated = true
 	p.inbox.Stop()
 	p.context.engine.Registry.Remove(p.pid)
 	p.context.message = Stopped{}
